@@ -11,6 +11,7 @@ import (
 	"net/netip"
 	"os"
 	"path/filepath"
+	"sort"
 	"strings"
 	"sync/atomic"
 	"testing"
@@ -576,6 +577,100 @@ func TestC12Auth(t *testing.T) {
 		}
 		if scheme != "" {
 			hx.NonTrivial("auth|" + desc)
+		}
+	})
+}
+
+// ---------------------------------------------------------------------------
+// credentials follow the htpasswd file: after the file has been rewritten and
+// the refresh interval has passed, exactly the pairs in the new file are accepted
+
+func TestC12AuthFileHistory(t *testing.T) {
+	dir := t.TempDir()
+	hx.Check(t, hx.Scale(8, 80), func(t *rapid.T) {
+		file := filepath.Join(dir, fmt.Sprintf("htpasswd-%d", time.Now().UnixNano()))
+		model := map[string]string{}
+		write := func() {
+			var lines []string
+			for u, p := range model {
+				sum := sha1.Sum([]byte(p))
+				lines = append(lines, u+":{SHA}"+base64.StdEncoding.EncodeToString(sum[:]))
+			}
+			tmp := file + ".tmp"
+			os.WriteFile(tmp, []byte(strings.Join(lines, "\n")+"\n"), 0o600)
+			os.Rename(tmp, file)
+			// the refresher compares modification times: make sure it moves
+			mt := time.Now().Add(time.Duration(rapid.IntRange(-3600, 3600).Draw(t, "mtime")) * time.Second)
+			os.Chtimes(file, mt, mt)
+		}
+		users := []string{"alice", "bob", "carol"}
+		for _, u := range users[:rapid.IntRange(1, 3).Draw(t, "ninitial")] {
+			model[u] = "pw-" + u + "-0"
+		}
+		write()
+		refresh := 25 * time.Millisecond
+		schemes, err := auth.LoadAuthSchemes(map[string]config.AuthScheme{"b": {Name: "b", Type: "basic", Basic: config.BasicAuth{Realm: "r", File: file, Refresh: refresh}}})
+		if err != nil {
+			t.Fatal(err)
+		}
+		tg := targetFor(t, map[string]string{"auth": "b"}, false)
+		rt := &countingRT{}
+		p := &proxy.HTTPProxy{Transport: rt, Lookup: func(*http.Request) *route.Target { return tg }, AuthSchemes: schemes}
+		try := func(u, pw string) int {
+			req := httptest.NewRequest("GET", "http://example.com/x", nil)
+			req.RemoteAddr = "10.1.1.1:999"
+			req.SetBasicAuth(u, pw)
+			rec := httptest.NewRecorder()
+			p.ServeHTTP(rec, req)
+			return rec.Code
+		}
+		known := map[string]map[string]bool{} // every password ever valid per user
+		var hist []string
+		rewrites := 0
+		for i, n := 0, rapid.IntRange(4, 14).Draw(t, "nops"); i < n; i++ {
+			if rapid.IntRange(0, 2).Draw(t, "rewrite") == 0 {
+				u := rapid.SampledFrom(users).Draw(t, "user")
+				switch rapid.IntRange(0, 2).Draw(t, "change") {
+				case 0:
+					delete(model, u)
+					hist = append(hist, "remove "+u)
+				default:
+					model[u] = fmt.Sprintf("pw-%s-%d", u, i)
+					hist = append(hist, "set password of "+u)
+				}
+				write()
+				rewrites++
+				time.Sleep(8 * refresh) // several refresh ticks
+				continue
+			}
+			u := rapid.SampledFrom(users).Draw(t, "loginuser")
+			if known[u] == nil {
+				known[u] = map[string]bool{}
+			}
+			if pw, ok := model[u]; ok {
+				known[u][pw] = true
+			}
+			// current password, or one that was valid earlier, or garbage
+			cands := []string{"garbage"}
+			for pw := range known[u] {
+				cands = append(cands, pw)
+			}
+			sort.Strings(cands)
+			pw := rapid.SampledFrom(cands).Draw(t, "password")
+			want := 401
+			if cur, ok := model[u]; ok && cur == pw {
+				want = 200
+			}
+			got := try(u, pw)
+			hx.Eval()
+			hist = append(hist, fmt.Sprintf("login %s/%s -> %d", u, pw, got))
+			if got != want {
+				t.Fatalf("login %s/%s answered %d, the credential file says %d\nhistory: %s", u, pw, got, want, strings.Join(hist, "; "))
+			}
+		}
+		if rewrites > 0 {
+			hx.NonTrivial("authfile|" + strings.Join(hist, ";"))
+			hx.Class("auth:file-rewritten")
 		}
 	})
 }
